@@ -35,6 +35,7 @@ type world struct {
 	wrappers []*wrapper
 	ecs      []*tabular.ErrorContainer
 	errs     map[error]string
+	sentinel error // the one error value returned by every callback registered with fails = 2
 	cbs      []*recCB
 	cblog    []interface{}
 	cbraw    []cbEvent
